@@ -155,7 +155,7 @@ def run_case(m, c: dict, rid: int) -> dict:
         n = c["n"]
         mixed = sum(int(x) for x in c["v"]) % 2 == 1           # half of the cases use items of mixed types
         var = build(m, {"t": "perm", "n": n, "mixed": mixed}, "p")
-        v = [float(x) for x in c["v"]]
+        v = [x / 2 for x in c["v"]]            # the model's candidates are in half units (fractions, ties, members)
         out = var.correct(v)
         out2 = var.correct(out)
         r["out"] = [int(x) for x in out] if isinstance(out, list) else []
@@ -434,7 +434,8 @@ def vclass(r):
     if r["kind"] == "task":
         return r["pat"]
     if r["kind"] == "perm":
-        return "member" if sorted(r["v"]) == list(range(r["n"])) else ("ties" if len(set(r["v"])) < r["n"] else "nonmember")
+        return ("member" if sorted(r["v"]) == [2 * k for k in range(r["n"])] else "ties" if len(set(r["v"])) < r["n"]
+                else "fractional" if any(x % 2 for x in r["v"]) else "nonmember")
     if r["kind"] == "ctor":
         return "raised" if r["raised"] else "accepted"
     if r["kind"] == "bool":
